@@ -28,6 +28,7 @@ func init() {
 			tableDeletePairing(r)
 			pageDedup(r)
 			iteratorPartitionAdvance(r)
+			c12MatchIsRegexp(r)
 			kvLookupCoversAllTables(r)
 			kvLookupVisitsEveryTable(r)
 		},
